@@ -59,7 +59,7 @@ def apply_closure(clo, args, **kw):
     b = BODIES.get(clo[1])
     if b is None:
         return None
-    bind = {1: clo}
+    bind = {1: ('ref', clo) if b.local_ty(1).startswith('&') else clo}
     for i, a in enumerate(args):
         bind[2 + i] = a
     return SymEx(b, bind=bind, **kw).run()
